@@ -238,6 +238,16 @@ dump(const char *tl, int ok) {
 				ref_rule("compRule?", c->compRule);
 				if (c->basechar) printf(" ; REF basechar? %u %zu", c->basechar, sizeof(*c));
 				if (c->linked) printf(" ; REF linked? %u %zu", c->linked, sizeof(*c));
+				if (!which && c->linked && !c->basechar) {
+					/* the list of the characters based on this one must be finite */
+					TranslationTableOffset q = c->linked;
+					int n = 0;
+					while (q && valid_off(q) && n < 70000) {
+						q = ((const TranslationTableCharacter *)&T->ruleArea[q])->linked;
+						n++;
+					}
+					if (n >= 70000) printf(" ; CYCLE linked %u", c->value);
+				}
 				dump_chain(which ? "BC" : "FC", c->value, k == (int)(c->value % HASHNUM) ? k : -2 - k, c->otherRules, !which, 0);
 				o = c->next;
 			}
